@@ -196,6 +196,37 @@ for name in ("BLOSUM62", "PAM250", "NUC", "BLOSUM62", "BLOSUM50"):
             lambda name=name: database_matrices_are_values(name))
 
 
+def positional_contract(n1, n2, order):
+    """as_positional(): the position-specific matrix scores every pair of positions as the original matrix scores the
+    symbols there, and aligning the positional sequences gives the original optimum - for alphabets on both sides of
+    the 256-symbol code-width step"""
+    a1, a2 = seq.Alphabet(list(range(n1))), seq.Alphabet(list(range(n2)))
+    table = np.random.default_rng(n1 * 1000 + n2).integers(-6, 7, size=(n1, n2)).astype(np.int32)
+    m = align.SubstitutionMatrix(a1, a2, table)
+    s1 = seq.GeneralSequence(a1, [0, n1 - 1, n1 // 2, 1 % n1])
+    s2 = seq.GeneralSequence(a2, [n2 - 1, 0, min(n2 - 1, 257), min(n2 - 1, 256), min(n2 - 1, 255)])
+    if order == "swapped":
+        m, s1, s2, table = m.transpose(), s2, s1, table.T
+    pm, p1, p2 = m.as_positional(s1, s2)
+    for i in range(len(s1)):
+        for j in range(len(s2)):
+            exp = int(table[s1.code[i], s2.code[j]])
+            if int(pm.get_score(p1[i], p2[j])) != exp or int(pm.score_matrix()[p1.code[i], p2.code[j]]) != exp:
+                return f"positional score of positions ({i}, {j}) = {pm.get_score(p1[i], p2[j])}, the matrix scores symbols ({s1.code[i]}, {s2.code[j]}) as {exp}"
+    for gap, local in ((-3, False), ((-5, -1), False), (-3, True)):
+        ref = align.align_optimal(s1, s2, m, gap_penalty=gap, local=local, max_number=1)[0].score
+        got = align.align_optimal(p1, p2, pm, gap_penalty=gap, local=local, max_number=1)[0].score
+        if ref != got or ref != brute(s1.code, s2.code, table, gap, True, local):
+            return f"optimum of the positional sequences {got}, of the original sequences {ref}, brute force {brute(s1.code, s2.code, table, gap, True, local)} (gap {gap}, local {local})"
+    return None
+
+
+for n1, n2 in ((4, 4), (4, 300), (256, 257), (200, 70), (3, 66000)):
+    for order in ("as built", "swapped"):
+        R.check("substitution matrix accessors and transpose() agree with the score table", "as_positional", {"alphabet sizes": [n1, n2], "order": order},
+                lambda n1=n1, n2=n2, order=order: positional_contract(n1, n2, order))
+
+
 _mrng = np.random.default_rng(8)
 RECT = _mrng.integers(-5, 6, size=(4, len(A2))).astype(np.int32)
 RECT_MATRIX = align.SubstitutionMatrix(A1, A2, RECT)
